@@ -148,6 +148,9 @@ func checkConstraint(s string) (bool, error) {
 }
 
 func rawLoadFile(sys fs.FS, fname string, checkBC bool) (*token, error) {
+	if sys == nil { // no file system given: nothing exists
+		return nil, fmt.Errorf("error in ReadFile: %w", os.ErrNotExist)
+	}
 	b, err := fs.ReadFile(sys, fname)
 	if err != nil {
 		return nil, fmt.Errorf("error in ReadFile: %w", err)
@@ -173,6 +176,9 @@ func rawLoadFile(sys fs.FS, fname string, checkBC bool) (*token, error) {
 }
 
 func rawLoadPackage(sys fs.FS, pkg string) (*token, error) {
+	if sys == nil { // no file system given: every import is looked for among the native packages only
+		return nil, os.ErrNotExist
+	}
 	var matches []string
 	parts := append([]string{"vendor"}, strings.Split(pkg, "/")...)
 	for len(parts) > 0 {
